@@ -866,15 +866,15 @@ def check(ctx) -> Result:
     rng = ctx.rng
     with core.scratch():
         check_corpus(ctx, res)
-        n = ctx.n(24, 520)
+        n = ctx.n(24, 360)
         for _ in range(n):
             for rel in RELATIONS:
                 rel(ctx, res, rng)
             if len(res.violations) > 20:
                 break
-        for _ in range(ctx.n(4, 60)):
+        for _ in range(ctx.n(4, 40)):
             rel_param_zero(ctx, res, rng)
-        rel_missing_codes(ctx, res, rng, ctx.n(12, 150))
+        rel_missing_codes(ctx, res, rng, ctx.n(12, 100))
         ctx.batch.flush()
     return res
 
